@@ -229,6 +229,11 @@ class Emitter:
                     continue
                 fs = []
                 for f in d["fields"]:
+                    if f["default"] is not None and f["default"][1] == "None" and not G.nullable_spec(f["type"]) \
+                            and (d.get("cfg") or {}).get("omit_none"):
+                        # is_field_nullable also counts "default is None": Literal[.., None] = None is dropped by
+                        # omit_none although the type alone is not nullable; the model decides by the type
+                        raise OutOfModel("non-nullable type with default None under omit_none")
                     key = f["alias"] if f["alias"] is not None else f["name"]
                     fs.append(f"(mkF {coq_str(f['name'])} {coq_str(key)} {self.ty(f['type'])} {cbool(f['default'] is not None)} {cbool(f['init'])} {ov[f.get('nt_override')]})")
                 cfg = d.get("cfg") or {}
